@@ -15,6 +15,9 @@ C15 -- calls are backed by high-quality reads; low-quality reads are ignored.
             novel flag and every variant a feasible minor assignment carries has a
             qualifying filtered count; an allele with an unsupported core variant gets
             no selector
+  phase     one extra read with symbolic mapping quality through the real _parse_read: on
+            the paths where it fails the quality filter the captured minor model must be
+            the model without it (it is not: known finding, replayed with CBC)
   consumes  the stage entry points hand only the quality-filtered coverage to the model
             builders (the object passed on is the result of the filter chain)
 """
@@ -42,8 +45,7 @@ STUBS = ["threshold/backed: Coverage.coverage/total on symbolic counts (SymCover
          "the real filter semantics: a variant is kept iff the real filter function "
          "returns a truthy value); aldy.coverage.max -> If-term max",
          "lpinterface.model -> z3-capturing backend"]
-OUTSIDE = ["indelpost's own quality handling; the read-phase table (sam.phases) is built "
-           "from all reads regardless of quality and is not filtered (see DESIGN.md §5)",
+OUTSIDE = ["indelpost's own quality handling",
            "cn_max symbolic (division by a symbolic value); it is concrete 20"]
 ASSUMPTIONS = ["depth per site concrete (20*cn), counts/thresholds symbolic reals"]
 D = 10
@@ -72,6 +74,7 @@ def configs(tier):
         for genome in ("hg19", "hg38"):
             c.append({"kind": "minor", "gene": g, "genome": genome, "cn": cn, "major": mj})
     c.append({"kind": "consumes"})
+    c.append({"kind": "phase"})
     return c
 
 
@@ -494,6 +497,126 @@ def run_consumes(cfg):
         minor._print_candidates = minor._pc
     res["stats"] = {"paths": 1, "queries": 0}
     return res
+
+
+def _phase_sample(gene, extra, mq, n_extra=1):
+    """reads parsed by the real _parse_read: 10 fragments with the first site's variant,
+    10 with the second site's, plus `extra` discordant fragments of mapping quality mq."""
+    import c06
+
+    s = c06.new_sample(gene)
+    s.profile = Profile("p")
+    norm, muts = collections.defaultdict(list), collections.defaultdict(list)
+    st = 5042
+    ref = gene[st:st + 10]
+
+    def read(name, a, b, q):
+        seq = list(ref)
+        if a:
+            seq[2] = "T"  # 5044 G>T
+        if b:
+            seq[7] = "C"  # 5049 A>C
+        s._parse_read(name, st, [(0, 10)], "".join(seq), norm, muts, q, [30] * 10)
+
+    for i in range(10):
+        read(f"a{i}", True, False, 50)
+    for i in range(10):
+        read(f"b{i}", False, True, 50)
+    if extra:
+        for i in range(n_extra):
+            read(f"c{i}", True, True, mq)
+    s._make_coverage(norm, muts)
+    return s
+
+
+def run_phase(cfg):
+    """
+    A read below the mapping-quality threshold must not influence the minor model: the
+    real _parse_read parses one extra read with a *symbolic* mapping quality, the real
+    estimate_minor (capturing backend) builds the model with and without it, and on the
+    paths where the read fails the quality filter the two models must coincide.
+    """
+    import aldy.sam as sam_mod
+    import aldy.minor as minor
+    import aldy.common
+
+    res = new_result(cfg)
+    gene = gengene.load("GA", "hg19")
+    eng = Engine(name="c15p", timeout_ms=120000)
+    mq = z3.Int("mapq")
+    base = [mq >= 0, mq <= 60]
+    saved = sam_mod.__dict__.get("int")
+    sam_mod.int = symx.sint
+    cn_sol = CNSolution(gene, 0, ["1", "1"])
+    mj = MajorSolution(0, collections.Counter({SolvedAllele(gene, "1"): 1,
+                                               SolvedAllele(gene, "9"): 1}), cn_sol, [])
+
+    def model_of(sample):
+        aldy.common.json.clear()
+        with symx.install() as inst:
+            minor.estimate_minor(gene, sample.coverage, [mj], "z3")
+            m = inst.models[-1]
+        return (sorted(v.raw for v in m.vars), sorted(repr(c.lhs) + c.sense
+                                                      for c in m.constrs),
+                repr(m.objective))
+
+    try:
+        def run():
+            a = model_of(_phase_sample(gene, False, 50))
+            b = model_of(_phase_sample(gene, True, S(mq)))
+            return a, b
+
+        for dec, pc, (a, b) in eng.explore(run, base, max_paths=2000):
+            low = eng.prove([], mq < 10)[0] == "unsat"
+            if not low:
+                ob(res, "phase: (read passes the mapping-quality filter)", "holds")
+                continue
+            same = a == b
+            ob(res, "phase: a read below min_mapq leaves the minor model unchanged "
+                    "(variables, constraints, objective)", "holds" if same else "sat")
+            if not same:
+                rp = {"kind": "phase", "mq": 0, "n": 30}
+                okk, msg = replay(rp)
+                res["stats"]["replays"] = res["stats"].get("replays", 0) + 1
+                if okk:
+                    res["violations"].append({"what": msg, "key": "phase-quality",
+                                              "replay": rp})
+                else:
+                    res["inconclusive"].append(msg)
+                    ob(res, "UNREPRODUCED counterexample: phase", "inconclusive")
+    finally:
+        if saved is None:
+            sam_mod.__dict__.pop("int", None)
+        else:
+            sam_mod.int = saved
+    seen = {}
+    for v in res["violations"]:
+        seen.setdefault(v["key"], v)
+    res["violations"] = list(seen.values())
+    if res["violations"]:
+        for o in res["obligations"]:
+            if o["status"] == "inconclusive":
+                o["status"] = "known-finding"
+        res["inconclusive"] = []
+    res["stats"] = {**dict(eng.stats), **res["stats"]}
+    return res
+
+
+def replay_phase(o):
+    """real estimate_minor + CBC with and without reads of mapping quality o['mq']."""
+    import aldy.minor as minor
+
+    gene = gengene.load("GA", "hg19")
+    cn_sol = CNSolution(gene, 0, ["1", "1"])
+    out = []
+    for extra in (False, True):
+        smp = _phase_sample(gene, extra, o["mq"], o["n"])
+        mj = MajorSolution(0, collections.Counter({SolvedAllele(gene, "1"): 1,
+                                                   SolvedAllele(gene, "9"): 1}), cn_sol, [])
+        sols = minor.estimate_minor(gene, smp.coverage, [mj], "any")
+        out.append([(round(x.score, 3), x._solution_nice()) for x in sols])
+    return out[0] != out[1], (f"adding {o['n']} reads of mapping quality {o['mq']} (below "
+                              f"min_mapq) changes the minor solution: {out[0]} -> {out[1]}")
 
 
 def cex_counts(res, cfg, stage, mdl, xs, totals, thr, mc, what):
